@@ -267,6 +267,7 @@ class Scenario:
         st.world = clone(world if world is not None else self.world, {})
         st.world.readonly = readonly
         st.world.log = []
+        st.world.ties_mark = len(st.world.ties)      # roundings of earlier requests of a history stay recorded, this request's start here
         st.pc = list(pc if pc is not None else self.assume)
         out = Cell()
         eng.body(fn)
